@@ -10,6 +10,7 @@ import (
 	"io"
 	"math/rand"
 	"os"
+	"sync"
 	"sync/atomic"
 	"time"
 
@@ -593,6 +594,120 @@ func runParts(c *verdict.Ctx) {
 	}
 }
 
+// runPartsConcurrent: the same part set is fed by several goroutines at once
+// (PartSet is shared between the consensus state and the reactor's gossip
+// routines and carries its own mutex): every genuine part from every goroutine,
+// in different orders, with repeats.  Whatever the interleaving: added=true at
+// most once per index, count never above total, complete iff every slot is
+// filled, and the completed set reassembles to the original bytes.
+func runPartsConcurrent(c *verdict.Ctx) {
+	n := c.N(300, 20000)
+	for t := 0; t < n; t++ {
+		r := c.Rand("parts-conc", t)
+		s := []uint32{1, 7, 64, 4096}[r.Intn(4)]
+		k := 1 + r.Intn(12)
+		L := int(s)*k - r.Intn(int(s))
+		if L <= 0 {
+			L = 1
+		}
+		data := make([]byte, L)
+		r.Read(data)
+		full := types.NewPartSetFromData(data, s)
+		hdr := full.Header()
+		total := int(hdr.Total)
+		ps := types.NewPartSetFromHeader(hdr)
+		workers := 2 + r.Intn(3)
+		// partial delivery in some cases: only a subset of the indices is delivered at all
+		deliver := r.Perm(total)
+		partial := r.Intn(3) == 0 && total > 1
+		if partial {
+			deliver = deliver[:1+r.Intn(total-1)]
+		}
+		orders := make([][]int, workers)
+		for w := range orders {
+			o := append([]int{}, deliver...)
+			r.Shuffle(len(o), func(a, b int) { o[a], o[b] = o[b], o[a] })
+			if r.Intn(2) == 0 {
+				o = append(o, o...) // repeats
+			}
+			orders[w] = o
+		}
+		addedTrue := make([]int32, total)
+		var panics int32
+		var wg sync.WaitGroup
+		start := make(chan struct{})
+		for w := 0; w < workers; w++ {
+			wg.Add(1)
+			go func(o []int) {
+				defer wg.Done()
+				defer func() {
+					if rec := recover(); rec != nil {
+						atomic.AddInt32(&panics, 1)
+					}
+				}()
+				<-start
+				for _, i := range o {
+					ok, _ := ps.AddPart(copyPart(full.GetPart(i)))
+					if ok {
+						atomic.AddInt32(&addedTrue[i], 1)
+					}
+				}
+			}(orders[w])
+		}
+		begin(map[string]interface{}{"stream": "parts-conc", "case": t})
+		close(start)
+		wg.Wait()
+		end()
+		c.Eval()
+		c.Distinct("parts-conc", t, workers, total, partial)
+		w := map[string]interface{}{"stream": "parts-conc", "case": t, "len": L, "part_size": s, "workers": workers, "delivered_indices": len(deliver), "total": total}
+		if panics > 0 {
+			c.Violation("partset-addpart-panics", "AddPart panicked under concurrent delivery", w)
+			continue
+		}
+		bad := false
+		for i, a := range addedTrue {
+			if a > 1 {
+				c.Violation("partset-added-twice", fmt.Sprintf("AddPart returned added=true %d times for index %d under concurrent delivery", a, i), w)
+				bad = true
+				break
+			}
+		}
+		if bad {
+			continue
+		}
+		filled := 0
+		for i := 0; i < total; i++ {
+			if ps.GetPart(i) != nil {
+				filled++
+			}
+		}
+		if filled != len(deliver) || int(ps.Count()) != filled || ps.IsComplete() != (filled == total) {
+			c.Violation("partset-count-inconsistent-concurrent", fmt.Sprintf("after concurrent delivery of %d distinct parts: %d slots filled, Count()=%d, Total()=%d, IsComplete()=%v", len(deliver), filled, ps.Count(), total, ps.IsComplete()), w)
+			continue
+		}
+		if filled == total {
+			var got []byte
+			func() {
+				defer func() {
+					if rec := recover(); rec != nil {
+						got = nil
+					}
+				}()
+				got, _ = io.ReadAll(ps.GetReader())
+			}()
+			if !bytes.Equal(got, data) || ps.ByteSize() != int64(L) {
+				c.Violation("partset-reassembly-differs", "part set completed under concurrent delivery does not reassemble to the original bytes (or reports another size)", w)
+				continue
+			}
+			c.Count("parts_conc.sets_completed", 1)
+		} else {
+			c.Count("parts_conc.sets_left_partial", 1)
+		}
+		c.Count(fmt.Sprintf("parts_conc.workers=%d", workers), 1)
+	}
+}
+
 func partWitness(t, L int, s uint32, pm partMut, legit bool, err error) map[string]interface{} {
 	p := pm.part
 	return map[string]interface{}{"stream": "parts", "case": t, "data_len": L, "part_size": s, "mutation": pm.name,
@@ -718,5 +833,6 @@ func Run(c *verdict.Ctx) int {
 	c.Assume("SHA-256 and the RFC 6962 tree shape as re-implemented in ref/merkle.go", "protobuf encoding of blocks is shared with the implementation")
 	runProofs(c)
 	runParts(c)
+	runPartsConcurrent(c)
 	return c.Finish(1000)
 }
